@@ -419,6 +419,57 @@ def degree_rule(ctx):
                 return
 
 
+def mod_residue_case(a_val, b, m, t, no_prss, reps, seed):
+    """the residues (mod b) of the values opened inside `_mod` for `reps` reductions of one secret"""
+    async def prog(mpc):
+        secint = mpc.SecInt(16)
+        x = mpc.input(secint(a_val), senders=0)
+        ys = [x % b for _ in range(reps)]
+        return [int(v) for v in await mpc.output(ys)]
+    net = SimNet(m, t, no_prss=no_prss, seed=seed, sched=Scheduler(seed, 'random'), sec_param=30, max_steps=3_000_000)
+    with sharemon.ShareMonitor(net, record_results=False) as mon:
+        res = net.run(prog)
+    if any(r != [a_val % b] * reps for r in res):
+        return None, f'{a_val} % {b} opened {res[0][:5]}'
+    resid = [(v[1] % v[0]) % b for o in mon.opened[0] if o[0] == '_mod' for v in o[1] if isinstance(v[0], int)]
+    return resid, None
+
+
+def mod_residues(ctx):
+    """`a % b` for public b opens c = a - r_modb + b*(...) with r_modb drawn by random._randbelow: c mod b = (a - r_modb) mod b
+    must be UNIFORM on range(b) whatever a is (b not a power of two: the rejection branch of _randbelow is taken; a restart
+    that reuses a revealed bit biases r_modb and with it c mod b as a function of a mod b)"""
+    import randstat_oracle as ro
+    rng = ctx.subrng('mod-residues')
+    reps = ctx.scale(150, 600)
+    for b in (3, 5, 6, 7) + ((11, 12) if ctx.thorough else ()):
+        hist = {}
+        for a_val in (1, 1 + b, 2 * b + 2):
+            for (m, t, no_prss) in ((1, 0, False), (3, 1, rng.random() < 0.5)):
+                seed = rng.randrange(10**9)
+                rep = {'kind': 'mod-residues', 'a': a_val, 'b': b, 'm': m, 't': t, 'no_prss': no_prss, 'reps': reps, 'seed': seed}
+                try:
+                    resid, msg = mod_residue_case(a_val, b, m, t, no_prss, reps if m == 1 else reps // 3, seed)
+                except (Deadlock, PartyError) as exc:
+                    ctx.violation(f'C18: {a_val} % {b} does not run: {str(exc)[:200]}', rep)
+                    return
+                if msg:
+                    ctx.violation('C18: ' + msg, rep)
+                    return
+                ctx.case(('mod-residues', a_val, b, m, no_prss), nontrivial=True)
+                ctx.count('mod-residue-openings', len(resid))
+                h = hist.setdefault(a_val % b, [0] * b)
+                for r_ in resid:
+                    h[r_] += 1
+        for amod, h in hist.items():
+            p = ro.chi2_uniform_p(h)
+            if p < 1e-9:
+                ctx.violation(f'C18: value opened inside _mod for a = {amod} (mod {b}): its residue mod {b} is not uniform over '
+                              f'{sum(h)} reductions: counts {h} (chi-square p = {p:.3g}); it must not depend on a',
+                              {'kind': 'mod-residues-balance', 'b': b, 'a_mod_b': amod, 'counts': h, 'seed': ctx.seed})
+                return
+
+
 def binom_two_sided_ok(ones, n, alpha=1e-9):
     """is `ones` out of n fair coin flips plausible? (exact binomial tail bound via Hoeffding, conservative)"""
     if n == 0:
@@ -528,6 +579,7 @@ def run(ctx):
     zero_test_views(ctx)
     degree_rule(ctx)
     zero_sharing_independence(ctx)
+    mod_residues(ctx)
     model = common.LeanDriver('Share').run(lines)
     ctx.compare('mask range rounding (runtime._randoms vs MpycV.Share.maskBound)', exps, model, metas)
 
@@ -544,6 +596,13 @@ def replay(ctx, data):
         except (Deadlock, PartyError) as exc:
             return False, str(exc)[:200]
         return msg is None, msg or 'ok: every opening is re-randomised by a fresh sharing of zero'
+    if data.get('kind') == 'mod-residues':
+        resid, msg = mod_residue_case(data['a'], data['b'], data['m'], data['t'], data['no_prss'], data['reps'], data['seed'])
+        return msg is None, msg or f'ok ({len(resid)} openings)'
+    if data.get('kind') == 'mod-residues-balance':
+        c2 = common.Ctx('C18', 'quick', data.get('seed', 0))
+        mod_residues(c2)
+        return not c2.violations, (c2.violations[0][0] if c2.violations else 'ok: residues uniform')
     if data.get('kind') == 'degree-rule':
         import programs
         prog = _eq_prog if data['program'] == 'eq_wide' else programs.PROGRAMS[data['program']][0]()
